@@ -1765,6 +1765,13 @@ def run_sdps_case(ctx, family, rng):
 
     params = DatabaseManager().db.devices.get(family).info.isp.rom.protocol_params
     no_cmd, pack = params.get("no_cmd", True), params.get("hid_pack_size", 1020)
+    rom = SD.SDPS_ROM_TABLE.get(family)
+    if rom is not None:
+        ctx.count("sdps_rom_table_compared")
+        if (pack, not no_cmd) != rom:
+            ctx.violation("sdps-family-parameters-differ-from-the-rom-table",
+                          {"family": family, "database": {"hid_pack_size": pack, "command_block_first": not no_cmd},
+                           "rom_table": {"hid_pack_size": rom[0], "command_block_first": rom[1]}})
     sizes = [0, 1, pack - 1, pack, pack + 1, 2 * pack, 3 * pack + 7, rng.randrange(0, 20000), core.pick(rng, [65536, 65535, rng.randrange(20000, 65537)])]
     for n in sizes:
         bp.HID_REPORT.clear()
